@@ -300,6 +300,9 @@ func (r *Router) Inject(dir wiretap.Dir, from, to net.Addr, data []byte, delay t
 	if r.closed {
 		return
 	}
+	if traceDatagrams {
+		fmt.Printf("TRACE inject %s %d bytes to %s in %s (closed=%v)\n", dir, len(data), to, delay, r.closed)
+	}
 	r.push(dir, &delivery{at: r.Now() + delay, pkt: simnet.Packet{From: from, To: to, Data: append([]byte(nil), data...)}, raw: true})
 }
 
@@ -341,6 +344,9 @@ func (r *Router) run(d int) {
 				}
 				if odl != nil && !next.raw {
 					odl(next.info, next.mod)
+				}
+				if traceDatagrams && next.raw {
+					fmt.Printf("TRACE deliver injected %d bytes to %s at %s\n", len(next.pkt.Data), next.pkt.To, r.Now())
 				}
 				rcv.RecvPacket(next.pkt)
 			}
